@@ -27,10 +27,13 @@ namespace XotModel
 
 /-- The tokenizer contract: on the canonical rendering of a token list that meets the lexical side
     conditions `LexOK` (Model/LexOK.lean) the tokenizer returns, without error, that token list up to
-    byte positions and whole-token spans. -/
+    byte positions and whole-token spans; an absent prefix is reported as an empty span at offset 0
+    (xmlparser's `"".into()`; since /repo a5fafb0 xot tells it by that offset from the empty prefix
+    of the spelling `:local`, which it refuses). -/
 def LexCanon (frag : Bool) (lex : Str → List Token × Option Nat) : Prop :=
   ∀ ts, LexOK frag ts = true →
-    ∃ ts', lex (renderTokens ts) = (ts', none) ∧ ts'.map Token.erase = ts.map Token.erase
+    ∃ ts', lex (renderTokens ts) = (ts', none) ∧ ts'.map Token.erase = ts.map Token.erase ∧
+      tokensPrefixOk ts' = true
 
 /-- The prefix chosen, `none` (unprefixed) where the serialiser fails. -/
 def okPrefix : Except XotError (Option Nat) → Option Nat
